@@ -22,7 +22,7 @@ ATOMS = ["word", "two words.", "#hash", "##", "[br]", "]x", "[", ":field: v", ".
 CORE = ["word", "#hash", "[br]", "  two", "", "café → ✓ \U0001F600", ":field: v", "]x", "trailing  ", ".. note:: n",
         "e\u0301 \u212b \uf900 \u1100\u1161", "----", "===="]
 INDENTS = ["", " ", "  ", "    ", "      ", "        ", "\t", "\t\t", " \t"]
-CARRIERS = ["function", "macro", "set", "option", "generic", "add_test", "add_test_pos", "ct_add_test", "ct_add_section",
+CARRIERS = ["function", "macro", "set", "option", "generic", "include_guard", "add_test", "add_test_pos", "ct_add_test", "ct_add_section",
             "class1", "class2", "class3", "attr1", "attr3", "member1", "member2", "member3", "ctor1", "ctor2",
             "test_impldoc", "member_impldoc", "module_named", "module_unnamed"]
 
@@ -39,6 +39,8 @@ def carrier_events(carrier, body, tag="a"):
     d = {"doc": 1, "doctext": list(body)}
     if carrier == "generic":
         return [dict(k="generic", cmd="gcmd_" + tag, **d)], 0
+    if carrier == "include_guard":     # a documented include_guard() (first command of the file when it is the first carrier)
+        return [dict(k="generic", cmd="include_guard", args=["GLOBAL"], **d)], 0
     if carrier == "add_test_pos":      # the short signature add_test(<name> <command> [<arg>...])
         return [dict(k="add_test", args=["smoke_" + tag, "prog_" + tag, "--flag"], **d)], 0
     if carrier in ("function", "macro", "set", "option", "generic", "add_test", "ct_add_test"):
@@ -179,11 +181,14 @@ def check(job):
         return check_cli(job)
     if mode == "twin":
         return check_twins(job)
-    if mode in ("single", "gap"):
+    if mode in ("single", "gap", "head"):
         _, carrier, body, indent, leader = job
         events, idx = carrier_events(carrier, body)
+        head = ""
         if mode == "gap":
             events[idx]["docgap"], leader = leader, True
+        if mode == "head":
+            head, leader = leader, True
         targets = [(idx, body)]
     else:
         _, c1, c2, b1, b2, indent, leader = job
@@ -196,6 +201,8 @@ def check(job):
         if c2.startswith("module"):
             raise common.HarnessFault("module doccomment must come first")
     layout = {"doc_indent": indent, "cmd_indent": indent, "head": indent, "leader": leader}
+    if mode == "head":
+        layout["head"] = head
     text = cmakegen.render(cmakegen.items(cmakegen.close(events)), layout)
     r = pipeline.document_text(text)
     if r["page"] is None:
@@ -208,7 +215,7 @@ def check(job):
                     + ("/module" if "@module" in text else "")) if msgs else None}
 
 
-CLI_NAMES = ["index.cmake", "sub/index.cmake", "a.cmake", "a.b.cmake", "a.c.cmake", "a-b.cmake", "a_b.cmake", "A.cmake", "a.cmake.cmake", "ab.cmake",
+CLI_NAMES = ["index.cmake", "sub/index.cmake", "Toolchain.CMake", "sub/UP.CMAKE", "a.cmake", "a.b.cmake", "a.c.cmake", "a-b.cmake", "a_b.cmake", "A.cmake", "a.cmake.cmake", "ab.cmake",
              "sub/a.cmake", "sub/a.b.cmake", "sub.cmake", "a/a.cmake"]
 
 
@@ -224,6 +231,10 @@ def check_cli(job):
         for n, nm in enumerate(names):
             files["in/" + nm] = (f"#[[[\n# Marker function {n} of {nm}.\n#\n#   indented {n}\n#]]\nfunction(fn_{n} a)\nendfunction()\n"
                                  f"#[[[\n# Marker variable {n} of {nm}.\n#]]\nset(VAR_{n} v)\n")
+        # every directory also holds an ordinary lower-case module (auto-exclusion looks for one)
+        import os as _os
+        for d in {_os.path.dirname(k) for k in files} | {"in"}:
+            files[d + "/zz_plain.cmake"] = "set(PLAIN 1)\n"
         box.build(files)
         r = box.run(["-r", "-o", box.path("out"), box.path("work", "in")], cwd="work")
         if r["status"] != 0:
@@ -276,6 +287,11 @@ def run(ctx):
         for gap in ("# cmake-lint: disable=C0103", "#[[ note ]]", "# one\n\n# two"):
             for ind in ("", "  ", "\t"):
                 jobs.append(("gap", carrier, ["Doc above a comment.", "", "  second"], ind, gap))
+    # a licence header above the doccomment whose comment lines hold characters that Python's str.splitlines() treats as
+    # line breaks (form feed, VT, FS, NEL, LS, PS) - for CMake and the lexer they are ordinary comment text
+    for carrier in CARRIERS:
+        for hd in ("# page one\x0c page two\n", "# a\x0c\x0c b\x0b c\n# d\u2028 e\u2029 f\x85 g\x1c h\n\n"):
+            jobs.append(("head", carrier, ["First line.", "", "  indented", "Last line."], "", hd))
     # leaderless form: unindented, lines start with a letter
     letter = ["word", "two words.", "café → ✓", "tab\tin", "trailing  ", "See issue #12 [x] here", "C#-style; a]b"]
     for carrier in CARRIERS:
@@ -286,13 +302,13 @@ def run(ctx):
     pair_atoms = ["#hash", "  two", ":field: v"]
     for c1 in CARRIERS:
         for c2 in CARRIERS:
-            if c2.startswith("module"):
-                continue
+            if c2.startswith("module") or c1 == c2 == "include_guard":
+                continue        # (two include_guard() entries cannot be told apart by name)
             for a in pair_atoms if not quick else pair_atoms[:2]:
                 jobs.append(("pair", c1, c2, [f"Marker first {c1}.", a], [a, f"Marker second {c2}."], "", True))
     # twins: the same documented command twice (e.g. in the branches of an if)
     for c in CARRIERS:
-        if c.startswith("module") or c.endswith("impldoc") or c.startswith(("attr", "member", "ctor", "class")) and c[-1] != "1":
+        if c.startswith("module") or c.endswith("impldoc") or c == "include_guard" or c.startswith(("attr", "member", "ctor", "class")) and c[-1] != "1":
             continue
         for a in (["Twin doc line."], ["Twin doc.", "", "  second"]):
             jobs.append(("twin", c, a))
